@@ -354,6 +354,9 @@ class JSONGrammar(BaseGrammar):
     @contextmanager
     def __sync_required_names(self) -> Iterator[None]:
         """Synchronize the required names while processing the schema builder."""
+        # The schema builder may still hold the required names of a schema
+        # from which the grammar was created, e.g. after unpickling.
+        self.__schema_builder.required.clear()
         self.__schema_builder.required.update(self._required_names)
         yield
         self.__schema_builder.required.clear()
